@@ -349,5 +349,5 @@ RULES = [
     ("C07.R3", "P1", r3, "every table written for continuations is read for continuations"),
     ("C07.R4", "P1", r4_whole_ranks, "whole ranks"),
     ("C07.R5", "P1", r5_next_keys_like_call_next, "f.next keys like call_next"),
-    ("C07.R6", "P2", r6_ranks_partition, "ranks partition the candidates"),
+    ("C07.R6", "P1", r6_ranks_partition, "ranks partition the candidates"),
 ]
